@@ -49,6 +49,11 @@ def cases(seed, tier, shard, nshards):
                                                p_het5=(0.35 if what == 'round' and rng.random() < 0.4 else 0.0)))
             if c is not None and (what != 'embed' or unstrained(c)):
                 break
+        if what == 'fmap' and rng.random() < 0.3:
+            # fragment-less nodes with several real neighbours (virtual particles): the real beads keep their own average
+            v = MC.add_virtual(rng, c, n_virtual=rng.choice([1, 2]), n_zero_edges=rng.choice([1, 3]))
+            if v is not None:
+                c = dict(v, features=sorted(set(v['features']) | {'virtual_particles_in_forward_mapping'}))
         c = dict(c, kind=what, variant=rng.choice(['resolved', 'resolved_shuffled', 'resolved_sparse', 'raw']) if what == 'round'
                  else rng.choice(['resolved', 'resolved_shuffled', 'resolved_sparse']), sub_seed=rng.randrange(10 ** 6),
                  conformer=rng.random() < 0.4)
